@@ -135,7 +135,7 @@ def main(tier, seed, replay=None):
         n: {'layer2': 'asi'} for n in THEMES})
     # deep random derivations (tlc -simulate): terminators nested in
     # function bodies inside statement headers, calls, initialisers
-    sr, deep = gen.simulate(3000 if tier == 'quick' else 60000, maxtok=16,
+    sr, deep = gen.simulate(3000 if tier == 'quick' else 15000, maxtok=16,
                             maxnl=2, seed=seed + 5, sigma=DEEP_SIGMA,
                             workers=4, layer2='asi')
     rep.add_tlc(sr)
@@ -146,7 +146,7 @@ def main(tier, seed, replay=None):
     tmpls = gen.templates(rep)
     pool = [s for n in THEMES for s in themes[n]
             if any(it.virtual for it in s.items)
-            and hash(s.key()) % (8 if tier == 'quick' else 2) == seed % 2]
+            and hash(s.key()) % (8 if tier == 'quick' else 4) == seed % 2]
     themes['embedded'] = gen.embeddings(pool, tmpls, rng, 1)
     rep.notes['embedded_sentences'] = len(themes['embedded'])
     rep.mark('generated')
@@ -172,7 +172,8 @@ def main(tier, seed, replay=None):
             elif tier == 'quick':
                 ks = ['lf', kinds[(n + seed) % len(kinds)]]
             else:
-                ks = kinds
+                ks = ['lf'] + [kinds[(n * 5 + seed + j) % len(kinds)]
+                                for j in range(5)]
             for k in dict.fromkeys(ks):
                 text = concretise(s, seed=seed + n, brk=k)
                 for t in s.tokens:
